@@ -31,6 +31,10 @@ pub(in super::super) fn compile_query(
         maybe_dialect.unwrap_or_default()
     };
 
+    // The query may have been deserialized: an aggregate that is partitioned by a column
+    // it computes can never be split into SELECTs (the split recursed until the stack ran out).
+    let query = AggregateCycleCheck.fold_query(query)?;
+
     let (anchor, main_relation) = AnchorContext::of(query)?;
 
     let mut ctx = Context::new(dialect, anchor);
@@ -133,6 +137,21 @@ fn compile_relation(relation: RelationAdapter, ctx: &mut Context) -> Result<pq::
 
         RelationAdapter::Pq(rel) => rel,
     })
+}
+
+struct AggregateCycleCheck;
+
+impl RqFold for AggregateCycleCheck {
+    fn fold_transform(&mut self, transform: rq::Transform) -> Result<rq::Transform> {
+        if let rq::Transform::Aggregate { partition, compute } = &transform {
+            if partition.iter().any(|cid| compute.contains(cid)) {
+                return Err(crate::Error::new_simple(
+                    "an aggregate cannot be partitioned by a column that it computes",
+                ));
+            }
+        }
+        rq::fold_transform(self, transform)
+    }
 }
 
 fn compile_pipeline(
